@@ -425,7 +425,7 @@ func runPair(h []int) (out xplore.Out) {
 }
 
 func runCase(h []int, _ json.RawMessage) (out xplore.Out) {
-	if h[0] >= 2 {
+	if h[0] == 2 || h[0] == 3 {
 		return runPair(h)
 	}
 	mode, pos, mi := h[0], h[1], h[2]
@@ -456,18 +456,24 @@ func runCase(h []int, _ json.RawMessage) (out xplore.Out) {
 		out.Outcome = "not-buildable"
 		return
 	}
-	// children of the mutant: look valid by themselves
-	c1 := net.NewBlock(mb, labnet.BlockOpt{Tag: 8})
-	c2 := net.NewBlock(c1, labnet.BlockOpt{Tag: 8})
-	bad := map[bc.Hash]string{mb.Hash(): "mutant", c1.Hash(): "child-of-mutant", c2.Hash(): "grandchild-of-mutant"}
+	// children of the mutant: look valid by themselves; enough of them to outgrow the valid chain (mode 6)
+	kids := []*labnet.B{}
+	for prev, i := mb, 0; i < last-pos+2 || i < 2; i++ {
+		prev = net.NewBlock(prev, labnet.BlockOpt{Tag: 8})
+		kids = append(kids, prev)
+	}
+	bad := map[bc.Hash]string{mb.Hash(): "mutant"}
+	for i, k := range kids {
+		bad[k.Hash()] = fmt.Sprintf("descendant-%d-of-mutant", i+1)
+	}
 	w := chainlab.NewWorld(net, P.Tip, P.Base)
 	in, err := w.NewInst()
 	if err != nil {
 		return xplore.Out{Viols: []xplore.Viol{{Key: "infra-newnode", What: err.Error()}}}
 	}
-	nd := in.Node
 	check := func(when string) {
 		out.Checks++
+		nd := in.Node
 		best := nd.Chain.BestBlockHeader()
 		if n, isBad := bad[best.Hash()]; isBad {
 			viol("invalid-block-became-best:"+m.name, fmt.Sprintf("%s: best block is the %s", when, n))
@@ -478,31 +484,83 @@ func runCase(h []int, _ json.RawMessage) (out xplore.Out) {
 			}
 		}
 	}
-	validUpTo := pos - 1
-	if mode == 1 {
-		validUpTo = pos
+	// schedule: 'v' i = valid block i, 'm' = mutant, 'k' i = descendant i of the mutant, 'r' = restart
+	type step struct {
+		kind byte
+		i    int
 	}
-	for i := 1; i <= validUpTo; i++ {
-		if orphan, err := deliver(nd, valid[i].Block); err != nil || orphan {
-			viol("valid-block-refused", fmt.Sprintf("l%d before the mutant: orphan=%v err=%v", i, orphan, err))
-			return
+	var sched []step
+	vs := func(from, to int) {
+		for i := from; i <= to; i++ {
+			sched = append(sched, step{'v', i})
 		}
 	}
-	_, merr := deliver(nd, mb.Block)
-	check("after mutant")
-	deliver(nd, c1.Block)
-	check("after child of mutant")
-	deliver(nd, c2.Block)
-	check("after grandchild of mutant")
-	for i := validUpTo + 1; i <= last; i++ {
-		orphan, err := deliver(nd, valid[i].Block)
-		if orphan {
-			viol("valid-block-refused", fmt.Sprintf("l%d after the mutant became orphan", i))
-		} else if err != nil {
-			viol("valid-block-reported-error-while-invalid-branch-known:"+classOf(m.name), fmt.Sprintf("ProcessBlock(l%d) returned %v", i, err))
+	switch mode {
+	case 0: // mutant extends the best chain
+		vs(1, pos-1)
+		sched = append(sched, step{'m', 0}, step{'k', 0}, step{'k', 1})
+		vs(pos, last)
+	case 1: // mutant on a side branch that outgrows the main chain
+		vs(1, pos)
+		sched = append(sched, step{'m', 0}, step{'k', 0}, step{'k', 1})
+		vs(pos+1, last)
+	case 4: // as 0, the node restarts once the invalid branch is known, and again at the end
+		vs(1, pos-1)
+		sched = append(sched, step{'m', 0}, step{'k', 0}, step{'k', 1}, step{'r', 0})
+		vs(pos, last)
+		sched = append(sched, step{'r', 0})
+	case 5: // the mutant's descendants arrive first (orphans), then the mutant
+		vs(1, pos-1)
+		sched = append(sched, step{'k', 0}, step{'k', 1}, step{'m', 0})
+		vs(pos, last)
+	case 6: // the whole valid chain first, then an invalid branch longer than it, then a restart
+		vs(1, last)
+		sched = append(sched, step{'m', 0})
+		for i := range kids {
+			sched = append(sched, step{'k', i})
 		}
-		check(fmt.Sprintf("after l%d", i))
+		sched = append(sched, step{'r', 0})
+	case 7: // as 1 with a restart once the invalid branch is known
+		vs(1, pos)
+		sched = append(sched, step{'m', 0}, step{'k', 0}, step{'k', 1}, step{'r', 0})
+		vs(pos+1, last)
+		sched = append(sched, step{'r', 0})
 	}
+	var merr error
+	seenMutant := false
+	for _, st := range sched {
+		switch st.kind {
+		case 'v':
+			orphan, err := deliver(in.Node, valid[st.i].Block)
+			switch {
+			case orphan:
+				viol("valid-block-refused", fmt.Sprintf("l%d became orphan", st.i))
+			case err != nil && !seenMutant:
+				viol("valid-block-refused", fmt.Sprintf("l%d before the mutant: err=%v", st.i, err))
+				return
+			case err != nil:
+				viol("valid-block-reported-error-while-invalid-branch-known:"+classOf(m.name), fmt.Sprintf("ProcessBlock(l%d) returned %v", st.i, err))
+			}
+			check(fmt.Sprintf("after l%d", st.i))
+		case 'm':
+			_, merr = deliver(in.Node, mb.Block)
+			seenMutant = true
+			check("after mutant")
+		case 'k':
+			deliver(in.Node, kids[st.i].Block)
+			seenMutant = true // a descendant waiting in the orphan pool counts as "invalid branch known"
+			check(fmt.Sprintf("after descendant %d of mutant", st.i+1))
+		case 'r':
+			nd, err := labnet.NewNode(in.DB)
+			if err != nil {
+				viol("restart-failed", err.Error())
+				return
+			}
+			in.Node = nd
+			check("after restart")
+		}
+	}
+	nd := in.Node
 	best := nd.Chain.BestBlockHeader()
 	out.Checks++
 	if best.Hash() != valid[last].Hash() {
@@ -519,7 +577,7 @@ func runCase(h []int, _ json.RawMessage) (out xplore.Out) {
 			ref.DB.Wipe()
 		}
 	}
-	out.Steps = 8
+	out.Steps = len(sched)
 	out.Digest = fmt.Sprintf("%v", h)
 	if merr != nil {
 		out.Outcome = "mutant-refused-on-delivery"
@@ -557,6 +615,15 @@ func main() {
 			}
 		}
 	}
+	if run.Thorough() {
+		for _, mode := range []int{4, 5, 6, 7} {
+			for _, pos := range positions {
+				for mi := range muts {
+					items = append(items, []int{mode, pos, mi})
+				}
+			}
+		}
+	}
 	for mode := 2; mode <= 3; mode++ {
 		for _, pos := range positions {
 			for vi := range pairVariants {
@@ -565,10 +632,10 @@ func main() {
 		}
 	}
 	spec.Describe = func(h []int) interface{} {
-		if h[0] >= 2 {
+		if h[0] == 2 || h[0] == 3 {
 			return map[string]interface{}{"mode": []string{"", "", "pair on a side branch that outgrows the main chain (fork switch)", "child delivered before its parent (both connect in one call)"}[h[0]], "position": h[1], "pair": pairVariants[h[2]]}
 		}
-		return map[string]interface{}{"mode": []string{"mutant extends best chain", "mutant on side branch that outgrows the main chain"}[h[0]], "position": h[1], "mutant": muts[h[2]].name}
+		return map[string]interface{}{"mode": []string{"mutant extends best chain", "mutant on side branch that outgrows the main chain", "", "", "mutant extends best chain, restart once the invalid branch is known and at the end", "descendants of the mutant arrive first as orphans", "whole valid chain first, then an invalid branch longer than it, then a restart", "mutant on side branch, restart once the invalid branch is known and at the end"}[h[0]], "position": h[1], "mutant": muts[h[2]].name}
 	}
 	st := xplore.Flat(run, spec, items)
 	run.Set("states", st.States)
